@@ -77,6 +77,14 @@ Qed.
 Lemma update_md_ok old new now : md_ok (update_metadata old new now) = true.
 Proof. unfold md_ok, update_metadata. rewrite jget_jset_same. reflexivity. Qed.
 
+Lemma update_metadata_all m new now t :
+  linkmotime (update_metadata (Some m) new now) = Some now /\
+  (linkcrtime m = Some t -> linkcrtime (update_metadata (Some m) new now) = Some t) /\
+  md_ok (update_metadata (Some m) new now) = true.
+Proof.
+  split; [apply update_linkmotime|]. split; [apply update_linkcrtime|apply update_md_ok].
+Qed.
+
 Section MapFacts.
   Variable classify : bytes -> capclass.
   Variable normalize : bytes -> bytes.
